@@ -27,6 +27,10 @@ pub struct Profile {
     pub long_first: bool,
     /// allow huge coordinates
     pub huge: bool,
+    /// bigBed entries may reach past the chromosome end (accepted by the writer)
+    pub bed_past_end: bool,
+    /// a share of the cases has hundreds of small chromosomes (scaffolds)
+    pub scaffolds: bool,
 }
 
 impl Default for Profile {
@@ -44,6 +48,8 @@ impl Default for Profile {
             multipass: true,
             long_first: false,
             huge: true,
+            bed_past_end: false,
+            scaffolds: true,
         }
     }
 }
@@ -356,11 +362,58 @@ pub fn gen_pipe_case(rng: &mut Rng, p: &Profile) -> PipeCase {
         if kind == Kind::Bed && len <= last_start {
             len = last_start + 1;
         }
+        if kind == Kind::Bed && p.bed_past_end && rng.chance(1, 40) && last_end > last_start + 1 {
+            // the bigBed writer only checks that an entry *starts* inside the chromosome: let the last entries
+            // reach past the chromosome end
+            len = last_start + 1 + rng.below((last_end - last_start - 1) as u64) as u32;
+        }
         chroms.push(Chrom {
             name: name.to_string(),
             len,
             items,
         });
+    }
+    if p.scaffolds && rng.chance(1, 120) {
+        // hundreds of small chromosomes: chromosome tree with more than 256 entries, index nodes that span
+        // many chromosomes
+        chroms.clear();
+        let n = rng.range(257, 420);
+        let width = 4;
+        let mut ids: Vec<u64> = (0..n).collect();
+        if !opts.sort_all {
+            for i in (1..ids.len()).rev() {
+                let j = rng.below(i as u64 + 1) as usize;
+                ids.swap(i, j);
+            }
+        }
+        for id in ids {
+            let k = rng.range(1, 3);
+            let len = rng.range(50, 5000) as u32;
+            let mut items = vec![];
+            let mut pos = rng.below(10) as u32;
+            for _ in 0..k {
+                let l = 1 + rng.below(20) as u32;
+                if pos + l >= len {
+                    break;
+                }
+                items.push(match kind {
+                    Kind::Wig => Item::wig(pos, pos + l, f32_pool(rng)),
+                    Kind::Bed => Item::bed(pos, pos + l, ""),
+                });
+                pos += l + rng.below(5) as u32;
+            }
+            if items.is_empty() {
+                items.push(match kind {
+                    Kind::Wig => Item::wig(0, 1, 1.0),
+                    Kind::Bed => Item::bed(0, 1, ""),
+                });
+            }
+            chroms.push(Chrom {
+                name: format!("scaffold_{:0width$}", id, width = width),
+                len,
+                items,
+            });
+        }
     }
     if chroms.is_empty() {
         chroms.push(Chrom {
